@@ -450,3 +450,79 @@ func ConstInt(v ssa.Value) (int64, bool) {
 	}
 	return 0, false
 }
+
+// CountOnPaths returns the minimum and maximum number (saturating at 2) of
+// instructions satisfying pred on any path from `from` (exclusive; function
+// entry when nil) to a normal return. Paths ending in panic are ignored.
+// Deferred calls are counted where the defer statement executes.
+func CountOnPaths(fn *ssa.Function, from ssa.Instruction, pred Pred) (min, max int) {
+	const inf = 3
+	type mm struct{ lo, hi int }
+	in := map[*ssa.BasicBlock]mm{}
+	startB := fn.Blocks[0]
+	startI := 0
+	if from != nil {
+		startB = from.Block()
+		startI = Idx(from) + 1
+	}
+	sat := func(x int) int {
+		if x > 2 {
+			return 2
+		}
+		return x
+	}
+	count := func(b *ssa.BasicBlock, i0 int) int {
+		n := 0
+		for i := i0; i < len(b.Instrs); i++ {
+			if pred(b.Instrs[i]) {
+				n++
+			}
+		}
+		return n
+	}
+	min, max = inf, -1
+	// worklist propagation; start state (0,0) at start point
+	type item struct {
+		b  *ssa.BasicBlock
+		i0 int
+		s  mm
+	}
+	work := []item{{startB, startI, mm{0, 0}}}
+	for steps := 0; len(work) > 0 && steps < 100000; steps++ {
+		it := work[0]
+		work = work[1:]
+		c := count(it.b, it.i0)
+		out := mm{sat(it.s.lo + c), sat(it.s.hi + c)}
+		last := it.b.Instrs[len(it.b.Instrs)-1]
+		if _, ok := last.(*ssa.Return); ok && it.b.Comment != "recover" {
+			if out.lo < min {
+				min = out.lo
+			}
+			if out.hi > max {
+				max = out.hi
+			}
+		}
+		for _, s := range it.b.Succs {
+			old, seen := in[s]
+			nw := out
+			if seen {
+				if old.lo < nw.lo {
+					nw.lo = old.lo
+				}
+				if old.hi > nw.hi {
+					nw.hi = old.hi
+				}
+				if nw == old {
+					continue
+				}
+			}
+			in[s] = nw
+			work = append(work, item{s, 0, nw})
+		}
+	}
+	if max < 0 {
+		// no normal return reachable
+		return 0, 0
+	}
+	return min, max
+}
